@@ -85,7 +85,7 @@ def online_gen(seed: int) -> Callable:
         view = ops.View(sess.snap, sess.seams.fs.files, sess.recent)
         step = None
         last = plan["steps"][-1] if plan.get("steps") else None
-        if last is not None and "repeat_of" not in last and "twin_of" not in last and rs.random() < 0.5:
+        if last is not None and "repeat_of" not in last and "twin_of" not in last and rs.random() < 0.7:
             # the same call once more with one operand replaced by its near twin (a contract / list whose numbers agree with
             # it to the digits that get printed): results must follow the numbers, not the printed form
             import copy as _copy  # noqa: WPS433
